@@ -219,7 +219,9 @@ func (e *env) resolveIDs() {
 // deliveries counts how often message m is queued for / has been written to the client.
 func (e *env) deliveries(m *msg) int {
 	n := 0
-	for i := 0; i < e.l.loginMessagesToSend.Len(); i++ {
+	// the queue is flushed exactly once, when the pre-login event fires: what sits in it
+	// afterwards will never be sent
+	for i := 0; !e.l.isLoginEventFired && i < e.l.loginMessagesToSend.Len(); i++ {
 		if p := e.l.loginMessagesToSend.At(i); len(p.Data) == 2 && p.Data[0] == 0xA0 && int(p.Data[1]) == m.tag {
 			n++
 		}
@@ -761,7 +763,7 @@ func relayEnabled(h []c13Op, op c13Op) bool {
 func scenarios() []schedrun.Scenario {
 	return []schedrun.Scenario{
 		// an event handler on another goroutine sends a message while the read loop processes responses
-		{Name: "send-vs-responses", Quick: 2, Thorough: -1, Body: func(x *sched.X) {
+		{Name: "send-vs-responses", Quick: -1, Thorough: -1, Body: func(x *sched.X) {
 			e := newEnv(x, true)
 			e.send("plain") // queued
 			e.fire()        // flushed to the client
@@ -774,7 +776,7 @@ func scenarios() []schedrun.Scenario {
 			})
 		}},
 		// pre-login handlers on two goroutines register messages while the login event fires
-		{Name: "fire-vs-sends", Quick: 2, Thorough: -1, Body: func(x *sched.X) {
+		{Name: "fire-vs-sends", Quick: 3, Thorough: -1, Body: func(x *sched.X) {
 			e := newEnv(x, true)
 			x.Go("handler1", func() { e.send("plain") })
 			x.Go("handler2", func() { e.send("chain") })
@@ -786,7 +788,7 @@ func scenarios() []schedrun.Scenario {
 			})
 		}},
 		// a consumer that sends a follow-up message races with another handler's send
-		{Name: "chained-consumer-vs-send", Quick: 2, Thorough: 3, Body: func(x *sched.X) {
+		{Name: "chained-consumer-vs-send", Quick: 3, Thorough: -1, Body: func(x *sched.X) {
 			e := newEnv(x, true)
 			e.send("chain")
 			e.fire()
@@ -799,7 +801,7 @@ func scenarios() []schedrun.Scenario {
 			})
 		}},
 		// the backend goroutine relays Forge messages while the client read loop delivers replies
-		{Name: "relay-vs-replies", Quick: 2, Thorough: -1, Body: func(x *sched.X) {
+		{Name: "relay-vs-replies", Quick: 3, Thorough: -1, Body: func(x *sched.X) {
 			r := newRelayEnv(x, true)
 			r.backendMsg(c13Op{K: "B", I: 5}) // client id 1
 			x.Go("backend", func() { r.backendMsg(c13Op{K: "B", I: 6}); r.backendMsg(c13Op{K: "B", I: 5, V: 1}) })
@@ -816,7 +818,7 @@ func scenarios() []schedrun.Scenario {
 			})
 		}},
 		// cleanup (disconnect) races with responses: consumers still run at most once, completion at most once
-		{Name: "response-vs-cleanup", Quick: 2, Thorough: -1, Body: func(x *sched.X) {
+		{Name: "response-vs-cleanup", Quick: -1, Thorough: -1, Body: func(x *sched.X) {
 			e := newEnv(x, true)
 			e.send("plain")
 			e.send("plain")
@@ -868,9 +870,9 @@ func TestVerif(t *testing.T) {
 			return
 		}
 
-		depth, rdepth := 5, 5
+		depth, rdepth := 6, 6
 		if r.Thorough() {
-			depth, rdepth = 7, 7
+			depth, rdepth = 8, 8
 		}
 		preOps := []c13Op{{K: "S"}, {K: "F"}, {K: "R", I: 1, V: 1}, {K: "R", I: 2, V: 1}, {K: "SC"}, {K: "R", I: 1, V: 0}, {K: "R", I: 3, V: 2}, {K: "R", I: 2, V: 0}, {K: "RU"}, {K: "R", I: 4, V: 1}, {K: "C"}}
 		res := bfs.Explore(bfs.Config[c13Op]{Name: "prelogin", Ops: preOps, Depth: depth, Run: runPrelogin, Enabled: preloginEnabled,
